@@ -249,9 +249,17 @@ func acceptHeader(mode, mt string) []string {
 
 // checkContent verifies a 200/206/416 answer for content the model knows.
 func (w *World) checkContent(r *Resp, what, path string, data []byte, wantDigest, wantMT, rangeHdr string, head bool, props []string) {
+	w.checkContentM(r, what, path, data, wantDigest, map[string]bool{wantMT: true}, rangeHdr, head, props, "")
+}
+
+func (w *World) checkContentM(r *Resp, what, path string, data []byte, wantDigest string, wantMTs map[string]bool, rangeHdr string, head bool, props []string, note string) {
+	wantMT := ""
+	for k := range wantMTs {
+		wantMT = k
+	}
 	rv := judgeRange(rangeHdr, int64(len(data)))
 	bad := func(oracle, sig, msg string) {
-		w.x.viol(props, oracle, what+" "+sig, fmt.Sprintf("%s %s: %s", r.method, path, msg))
+		w.x.viol(props, oracle, what+" "+sig+note, fmt.Sprintf("%s %s: %s%s", r.method, path, msg, note))
 	}
 	switch rv.kind {
 	case "full":
@@ -297,7 +305,7 @@ func (w *World) checkContent(r *Resp, what, path string, data []byte, wantDigest
 		}
 	}
 	if wantMT != "" {
-		if ct := normCT(r.H.Get("Content-Type")); ct != wantMT {
+		if ct := normCT(r.H.Get("Content-Type")); !wantMTs[ct] {
 			bad("readback.headers", "Content-Type", fmt.Sprintf("Content-Type %q, pushed as %q", ct, wantMT))
 		}
 	}
@@ -374,8 +382,18 @@ func (w *World) opGet(op Op) *Resp {
 			mt = x.mt
 		}
 		acc := acceptHeader(op.Accept, mt)
+		if x != nil && len(x.mts) > 1 && op.Accept != "none" && op.Accept != "other" {
+			acc = nil
+			for _, k := range sortedKeys(x.mts) {
+				acc = append(acc, k)
+			}
+		}
 		for _, a := range acc {
 			hdr.Add("Accept", a)
+		}
+		note := ""
+		if why := mr.orphans[d]; why != "" {
+			note = " [" + why + "]"
 		}
 		path := "/v2/" + repo + "/manifests/" + ref
 		r := w.do(reqSpec{method: method, path: path, hdr: hdr, repos: []string{repo}})
@@ -393,14 +411,14 @@ func (w *World) opGet(op Op) *Resp {
 				w.checkContent(r, "manifest", path, x.data, d, "", op.Range, op.Head, []string{"C02"})
 			}
 		case x != nil && !x.maybeGone && accepts:
-			w.checkContent(r, "manifest", path, x.data, d, x.mt, op.Range, op.Head, []string{"C02", "C03"})
+			w.checkContentM(r, "manifest", path, x.data, d, x.mts, op.Range, op.Head, []string{"C02", "C03"}, note)
 			w.x.out.probe("manifest-read")
 			if op.Mode == "tag" {
 				w.x.out.probe("tag-read")
 			}
 		case x != nil && (x.maybeGone || !accepts):
 			if r.Code == 200 && accepts {
-				w.checkContent(r, "manifest", path, x.data, d, x.mt, op.Range, op.Head, []string{"C02"})
+				w.checkContentM(r, "manifest", path, x.data, d, x.mts, op.Range, op.Head, []string{"C02"}, note)
 			} else if r.Code == 200 && !accepts {
 				// an index by tag may legitimately be answered with a matching child
 			} else if r.Code != 404 && r.Code != 206 && r.Code != 416 && !r.is5xx() {
@@ -545,7 +563,11 @@ func (w *World) opDelete(op Op) *Resp {
 				if mr.blobDeleted[d] {
 					return r
 				}
-				w.x.viol([]string{"C03"}, "delete.status", "manifest present -> "+strconv.Itoa(r.Code), fmt.Sprintf("DELETE of present manifest %s answered %d", d, r.Code))
+				note := ""
+				if why := mr.orphans[d]; why != "" {
+					note = " [" + why + "]"
+				}
+				w.x.viol([]string{"C03"}, "delete.status", "manifest present -> "+strconv.Itoa(r.Code)+note, fmt.Sprintf("DELETE of present manifest %s answered %d%s", d, r.Code, note))
 				w.x.stop = true
 				return r
 			}
@@ -568,6 +590,19 @@ func (w *World) opDelete(op Op) *Resp {
 }
 
 func (w *World) deleteManifest(mr *MRepo, d string) {
+	if x, ok := mr.mans[d]; ok {
+		for _, c := range x.view.children {
+			if _, ok := mr.mans[c]; ok {
+				mr.orphans[c] = "child of a deleted index"
+			}
+		}
+		for ad, a := range mr.mans {
+			if a.view.subject == d {
+				mr.orphans[ad] = "referrer of a deleted subject"
+			}
+		}
+	}
+	delete(mr.orphans, d)
 	delete(mr.mans, d)
 	delete(mr.blobDeleted, d)
 	for t, td := range mr.tags {
